@@ -215,9 +215,9 @@ STORAGE_PROPS = {
     "C01": dict(main="proofs", extra=("forms",), monitor=mon_storage.C01, stateful=True,
                 rel=st(fields=["verify", "success"], ops=["postProof"], opfields={"block": ["files", "files2", "proofs", "bank"], "attest": ["proofs"], "postFile": ["files", "proofs"]},
                        queries=["proof", "proofsByAddress"])),
-    "C02": dict(main="proofs", monitor=mon_storage.c02, facts=facts.gen_pure_fns,
+    "C02": dict(main="proofs", monitor=mon_storage.C02, stateful=True, facts=facts.gen_pure_fns,
                 rel=st(fields=["verify", "challenge"], ops=["postProof"], opfields={"block": ["files", "files2", "proofs", "providers"]})),
-    "C03": dict(main="proofs", monitor=mon_storage.c03, facts=facts.gen_pure_fns,
+    "C03": dict(main="proofs", monitor=mon_storage.C03, stateful=True, facts=facts.gen_pure_fns,
                 rel=st(opfields={"block": ["files", "files2", "proofs", "providers", "bank", "panic"]})),
     "C04": dict(main="payments", monitor=mon_storage.c04, facts=facts.gen_pure_fns,
                 rel=st(ops=["buyStorage", "setParams"], opfields={"postFile": ["bank", "gauges", "outcome"]})),
